@@ -148,6 +148,15 @@ def obligations(tier):
                              'text, soap fault)',
                       claim='an error status reaches the subscription as HTTPReturnCodeError (the failure both managers count and '
                             'survive) whatever the body is; 2xx with an empty body is a successful delivery'))
+    obs.append(Ob('C08.pool.after_broken_connection', 'harness.C08', 'pool_after_broken_connection', timeout=t,
+                  functions=['sdc11073.pysoap.soapclientpool.SoapClientPool.get_soap_client', 'sdc11073.pysoap.soapclient.SoapClient.post_message_to',
+                             'sdc11073.pysoap.soapclient.SoapClient._send_soap_request'],
+                  stubs=['real SoapClientPool and SoapClient; the HTTP connection is a stub that breaks once (while sending / while reading '
+                         'the response / HTTP protocol error) and works afterwards; real interpreter semantics, selectors by the solver'],
+                  bounds='1..3 subscriptions share the client of one network location; the connection breaks once; then the same or a '
+                         'newly accepted subscription posts a notification',
+                  claim='the notification is really sent (one request attempt) - a connection error of the past does not make deliveries '
+                        'fail locally for ever'))
     obs.append(Ob('C08.filter.match', 'harness.C08', 'filter_match', timeout=t, functions=[SMB + '.ActionBasedSubscription.matches'],
                   bind={'maxlen': 2 if quick else 3}, stubs=[S_CTOR],
                   bounds=f'1 or 2 filter entries: symbolic str of 1..{2 if quick else 3} chars without white space; action: symbolic '
